@@ -1,0 +1,62 @@
+//go:build verif
+// +build verif
+
+package encoder
+
+import (
+	"fmt"
+	"sync"
+	"sync/atomic"
+	"unsafe"
+
+	"github.com/goccy/go-json/internal/runtime"
+)
+
+// Verification hooks, compiled in with -tags verif only.
+//
+// VerifPtrs records the slot array the interpreter is about to address through a raw uintptr,
+// VerifSlot asserts that every slot access of the interpreters lies inside that array, and
+// VerifCodeSet asserts that the program handed out for a type pointer was compiled for that type.
+// Violations panic with the prefix "VERIF-HOOK:" so that a harness can tell them from other panics.
+// A context's range is refreshed on every Ptr() call (nested encodes from marshalers use other contexts).
+
+type verifRange struct{ lo, hi uintptr }
+
+var (
+	verifMu            sync.Mutex
+	verifRanges        = map[*RuntimeContext]verifRange{} // the slot array last announced by each context
+	VerifSlotChecks    uint64
+	VerifCodeSetChecks uint64
+)
+
+func VerifPtrs(c *RuntimeContext) {
+	header := (*runtime.SliceHeader)(unsafe.Pointer(&c.Ptrs))
+	lo := uintptr(header.Data)
+	verifMu.Lock()
+	verifRanges[c] = verifRange{lo, lo + uintptr(len(c.Ptrs))*unsafe.Sizeof(uintptr(0))}
+	verifMu.Unlock()
+}
+
+func VerifSlot(base uintptr, idx uint32) {
+	atomic.AddUint64(&VerifSlotChecks, 1)
+	addr := base + uintptr(idx)
+	verifMu.Lock()
+	ok := false
+	for _, r := range verifRanges {
+		if addr >= r.lo && addr+unsafe.Sizeof(uintptr(0)) <= r.hi {
+			ok = true
+			break
+		}
+	}
+	verifMu.Unlock()
+	if !ok {
+		panic(fmt.Sprintf("VERIF-HOOK: slot access at %#x (+%d) outside the slot array of every live encoding context", addr, idx))
+	}
+}
+
+func VerifCodeSet(typeptr uintptr, s *OpcodeSet) {
+	atomic.AddUint64(&VerifCodeSetChecks, 1)
+	if s != nil && uintptr(unsafe.Pointer(s.Type)) != typeptr {
+		panic(fmt.Sprintf("VERIF-HOOK: program compiled for type %#x returned for type %#x", uintptr(unsafe.Pointer(s.Type)), typeptr))
+	}
+}
